@@ -103,6 +103,9 @@ func (dec *Decoder) DecodeSnapshotWithTopo() (*SnapshotWithTopologicalOrder, err
 	if err == io.EOF && num == 0 {
 		return topo, nil
 	} // genesis no signature
+	if err != nil {
+		return nil, err
+	}
 	topo.TopologicalOrder = num
 
 	es, err := dec.buf.ReadByte()
